@@ -124,8 +124,35 @@ fn pat(p: &Pat) -> S {
     n("pat", vec![a(toks(p))])
 }
 
+/// Attributes of a statement (where syn keeps them: on the `let`, or on the expression).
+fn stmt_attrs(s: &Stmt) -> &[syn::Attribute] {
+    match s {
+        Stmt::Local(l) => &l.attrs,
+        Stmt::Expr(e, _) => match e {
+            Expr::Call(x) => &x.attrs,
+            Expr::MethodCall(x) => &x.attrs,
+            Expr::Macro(x) => &x.attrs,
+            Expr::Block(x) => &x.attrs,
+            Expr::If(x) => &x.attrs,
+            Expr::Assign(x) => &x.attrs,
+            Expr::Unsafe(x) => &x.attrs,
+            Expr::Path(x) => &x.attrs,
+            _ => &[],
+        },
+        Stmt::Macro(m) => &m.attrs,
+        Stmt::Item(_) => &[],
+    }
+}
+
+/// Statements compiled only under the verification flag are scaffolding (the cooperative lock
+/// shim): the model is of the crate as built without the flag, so they are left out; their
+/// `cfg(not(arc_swap_verif))` twins are what is translated.
+fn is_verif_only(s: &Stmt) -> bool {
+    stmt_attrs(s).iter().any(|at| at.path().is_ident("cfg") && toks(&at.meta).replace(' ', "") == "cfg(arc_swap_verif)")
+}
+
 fn block(b: &syn::Block) -> S {
-    n("block", b.stmts.iter().map(stmt).collect())
+    n("block", b.stmts.iter().filter(|s| !is_verif_only(s)).map(stmt).collect())
 }
 
 fn stmt(s: &Stmt) -> S {
